@@ -320,10 +320,26 @@ def _psf_call_args(call, sc):
     img, truth = _psf_scene(sc)
     n = len(truth)
     init = QTable()
-    init['x'] = np.array(truth['x_0']) + call['dx']
-    init['y'] = np.array(truth['y_0']) - call['dx'] / 2
+    # the documented column-name conventions; calls of one history may use
+    # different ones, and a table may carry lower-priority aliases as well
+    # (a results table fed back): the first valid name in the documented
+    # order is used, whatever earlier calls were given
+    xn, yn, fn = {'plain': ('x', 'y', 'flux'),
+                  'init': ('x_init', 'y_init', 'flux_init'),
+                  'zero': ('x_0', 'y_0', 'flux_0'),
+                  'fit': ('x_fit', 'y_fit', 'flux_fit'),
+                  'cen': ('xcentroid', 'ycentroid', 'segment_flux')}[
+        call.get('colnames', 'plain')]
+    init[xn] = np.array(truth['x_0']) + call['dx']
+    init[yn] = np.array(truth['y_0']) - call['dx'] / 2
     if call['with_flux']:
-        init['flux'] = np.array(truth['flux']) * 0.9
+        init[fn] = np.array(truth['flux']) * 0.9
+    if call.get('distractors') and call.get('colnames', 'plain') in (
+            'plain', 'init', 'zero'):
+        init['x_fit'] = np.array(truth['x_0']) + 2.5
+        init['y_fit'] = np.array(truth['y_0']) - 2.5
+        if call['with_flux']:
+            init['flux_fit'] = np.array(truth['flux']) * 3.0
     if call['group_id'] is not None:
         init['group_id'] = [call['group_id'][i % len(call['group_id'])] + 1
                             for i in range(n)]
@@ -479,6 +495,9 @@ def psf_cases(draw):
         calls.append({'scene': draw(st.integers(0, 2)),
                       'dx': draw(st.sampled_from([0.0, 0.3, -0.4])),
                       'with_flux': draw(st.booleans()),
+                      'colnames': draw(st.sampled_from(['plain', 'plain', 'init',
+                                                        'zero', 'fit', 'cen'])),
+                      'distractors': draw(st.booleans()),
                       'group_id': draw(st.one_of(st.none(), st.none(),
                                                  st.lists(st.integers(0, 2), min_size=1, max_size=4))),
                       'mask': draw(st.booleans()), 'error': draw(st.booleans()),
